@@ -3141,6 +3141,11 @@ event_callback_activate_nolock_(struct event_base *base,
 		break;
 	}
 
+	/* As in event_active_nolock_(): something more urgent than the callbacks
+	 * being processed has become runnable, so restart from the top. */
+	if (evcb->evcb_pri < base->event_running_priority)
+		base->event_continue = 1;
+
 	event_queue_insert_active(base, evcb);
 
 	if (EVBASE_NEED_NOTIFY(base))
